@@ -16,6 +16,10 @@ import TmcgProofs.CgjkrSignExample
   semantic premises Fmu(0) = k·a ≠ 0, Fs(0) = k·(m + x·r); these are NOT derived from the per-step
   checks (registered as partial).  `sign_honest_example`: a complete honest run (p = 23, q = 11, n = 3,
   t = 1, key generation then Sign(7)) evaluated by the kernel.
+  ROUND 2 NOTE: `RunBinding` is UNSATISFIABLE (`Tmcg.C16.bindsView_unsat` in C16SignRunFull.lean: `BindsView` quantifies
+  over all pairs that pass the share check, and Pedersen commitments hide perfectly), so `sign_run_agree` and
+  `sign_run_valid` below are vacuous.  They are kept as a record and are NO LONGER REGISTERED as obligations; the
+  registered run-level statements are `sign_run_agree_views` / `sign_run_valid_views` (C16SignRunFull.lean).
   Property theorems only (statements copied from TmcgProofs/CgjkrSign*.lean by tools/mkprops.py, proofs
   by reference).  Imported by TmcgProps/C16.lean.
 -/
